@@ -223,6 +223,11 @@ pub fn short_path(p: &str) -> String {
     p.to_string()
 }
 
+/// The most recent panic recorded by the hook on this thread (location, message), if any.
+pub fn last_panic() -> Option<PanicInfo> {
+    LAST_PANIC.with(|p| p.borrow_mut().take())
+}
+
 /// Run `f`, catching a panic (quietly). The closure must not leave shared state broken.
 pub fn catch<T>(f: impl FnOnce() -> T) -> Result<T, PanicInfo> {
     install_panic_hook();
